@@ -6,14 +6,19 @@ PROP = "C14"
 LEVEL = "other"
 H = "vf.contracts.c_drivers."
 P = "a816.program.Program."
-FUNCTIONS = [P + "assemble_with_emitter", P + "assemble", P + "assemble_as_patch", P + "assemble_string_with_emitter", "a816.parse.nodes.SymbolNode.pc_after"]
+FUNCTIONS = [P + "assemble_with_emitter", P + "assemble", P + "assemble_as_patch", P + "assemble_string_with_emitter", "a816.parse.nodes.SymbolNode.pc_after",
+             "a816.parse.mzparser.MZParser.parse_as_ast", "a816.parse.tokens.Token.trace"]
+from vf.props import C15 as _c15  # noqa: E402
+FUNCTIONS = FUNCTIONS + _c15.PARSER_FUNCTIONS
 MIN_OBLIGATIONS = 30
 EXPLANATION = ("The driver functions are loop-free: each is executed path-completely on the real code with its callee replaced by an assumed "
                "outcome contract (returns None / returns an error message / raises NodeError, RuntimeError, KeyError, struct.error, ValueError / "
                "source file missing), and the status, the propagated exception and the 'Success !' log event are checked for every outcome. "
-               "That each class of definite error really produces one of those outcomes is the bounded fault-injection part.")
+               "That each class of definite error really produces one of those outcomes is the bounded fault-injection part."
+               "  SYNTAX ERRORS ARE LOCATED: every parser state function, run on a token list of ARBITRARY length whose tokens all carry a position and which ends with its only EOF token (the scanner's output shape), raises ParserSyntaxError only with a token OF THE LIST -- never the position-less end marker Parser.current() makes up beyond the end -- and returns without having consumed the end marker (modular: callee contracts at call sites, loops cut at invariants; second contract of the parser functions, vf/contracts/c_parser.py parser_error_location_contract)." '  Token.trace of a located token is never None and MZParser.parse_as_ast turns a located syntax error into a returned error message (with the scanner / parser outcomes assumed).')
 TRUSTED = ["vf/specs/stubs.py (outcome contracts of the callees, open() model)"]
-ASSUMPTIONS = ["the in-memory assembler's possible outcomes are: None, an error string, or an exception (stubs.assemble_string_model)",
+ASSUMPTIONS = ["parser_error_location_contract: the token list has the scanner's output shape (every token has a position; exactly one EOF token, last, with empty text) -- assumed in the shape, exercised by the stand-ins; parse_opcode / parse_symbol_affectation / parse_keyword are entered on a token their caller has classified (call-site obligation, discharged at every call site reached)",
+               "the in-memory assembler's possible outcomes are: None, an error string, or an exception (stubs.assemble_string_model)",
                "open(): ghost file system; missing file -> FileNotFoundError", "logger calls recorded as events; logging configuration does not change results",
                "bounded: every error class injected at several statement positions through the string API, assemble, assemble_as_patch and the CLI (subprocess)"]
 NATIVE_OVERRIDES = {}
@@ -42,6 +47,16 @@ def program(B):
 def emitter(B):
     from vf.pyvc.models import new_file
     return B.inst("a816.writers.IPSWriter", file=new_file(B.I, B.st, "wb"), _regions=B.list([]), _copier_header=False)
+
+
+def shape_located_token(tt):
+    def sh(B):
+        import z3
+        f = B.inst("a816.parse.tokens.File", filename="t.s", lines=B.list(["lda (", "nop", ""]))
+        line = B.int("line", 0, 2)
+        pos = B.inst("a816.parse.tokens.Position", line=line, column=B.int("column", 0, 40), file=f)
+        return {"token": B.inst("a816.parse.tokens.Token", type=B.enum("a816.parse.tokens.TokenType", tt), value="" if tt == "EOF" else "name", position=pos)}
+    return sh
 
 
 def shape_symbol_node(deferred):
@@ -89,6 +104,12 @@ def cases(E):
     # the top-level parser stops only at the end of the input (a token it cannot place is a syntax error, not a silent stop)
     from vf.props import C15 as c15
     cs += [c for c in c15.parser_cases(E) if c.label == "parse_initial"]
+    # a syntax error always carries a token with a position: MZParser.parse_as_ast reports that token's trace, and no trace would read as success
+    cs += c15.parser_location_cases(E)
+    for tt in ("EOF", "IDENTIFIER"):
+        cs.append(Case(H + "token_trace_contract", f"{tt} token with a position", shape_located_token(tt), target=["a816.parse.tokens.Token.trace"]))
+        cs.append(Case(H + "parse_as_ast_reports_contract", f"the parser fails on a located {tt} token", shape_located_token(tt), target=["a816.parse.mzparser.MZParser.parse_as_ast"],
+                       overrides={"a816.parse.scanner.Scanner.scan": "vf.specs.stubs.scanner_scan_model", "a816.parse.parser.Parser.parse": "vf.specs.stubs.parser_parse_raises_model"}))
     return cs
 
 
@@ -110,5 +131,8 @@ def mutants():
     return [
         Mutant("assemble_with_emitter:RuntimeError->0", P + "assemble_with_emitter", textual("return -1", "return 0", 5), only_harness="assemble_with_emitter"),
         Mutant("assemble_as_patch:status-dropped", P + "assemble_as_patch", textual("return exit_code", "return 0"), only_harness="assemble_as_patch"),
+        Mutant("parse_as_ast:syntax-error-dropped", "a816.parse.mzparser.MZParser.parse_as_ast", textual("error = e.token.trace()", "error = None"), only_harness="parse_as_ast_reports"),
+        Mutant("parse_code_lookup:error-carries-the-token-after-the-offending-one", "a816.parse.parser_states.parse_code_lookup",
+               textual("expect_token(p.next(), TokenType.DOUBLE_RBRACE)", "p.next()\n    expect_token(p.current(), TokenType.DOUBLE_RBRACE)"), only_harness="parser_error_location"),
         Mutant("assemble_string:emit-skipped-on-dump", P + "assemble_string_with_emitter", textual("self.emit(nodes, emitter)", "pass"), only_harness="assemble_string"),
     ]
